@@ -179,6 +179,23 @@ def step(w, op, prop, strict_others=False):
                 t._data[col] = as_faulty(t._data[col])
         _after_mutation(w, prop, tid, where)
         return "setcol_index" if col == m.index else ("setcol" if existing else "newcol")
+    if kind == "setcol_b":
+        # one numpy value (scalar, 0-d array or one-element array, of ANOTHER numeric dtype than the column) assigned to an
+        # existing column: it is broadcast to every row, the column keeps its length and dtype
+        _, tid, col, value, form = op
+        t, m = w.real[tid], w.model[tid]
+        kd = w.kinds[tid].get(col)
+        if col not in m.cols or kd not in ("f", "i") or m.n() < 2 or col == m.index:
+            return "skipped"
+        v = np.int64(int(value)) if kd == "f" else np.float64(float(int(value)))
+        arr = v if form == "scalar" else (np.array(v) if form == "0d" else np.array([v]))
+        where = "table #%d t[%r] = %r (%s)" % (tid, col, arr, form)
+        val, exc = call(lambda: t.__setitem__(col, arr))
+        if exc is not None:
+            raise TViolation(prop + ".setcol_raises", "%s raised %s: %s" % (where, type(exc).__name__, exc))
+        m.data[col] = [float(int(value)) if kd == "f" else int(value)] * m.n()
+        _after_mutation(w, prop, tid, where)
+        return "setcol_broadcast"
     if kind == "labelcol":
         # the table's own row labels stored as a column: t[col] = t.cols.get_index_unique() (the array the API handed out)
         _, tid, col = op
